@@ -293,9 +293,21 @@ def c_de_identifier(m, st, f, a):
     return call_then(m, st, FnItem(_de_items(m)['visit_str']), [a[1], mkstr(k.key)], _after_de)
 
 
+def resolve_any(m, st, node):
+    """('any', selector BV8, [alternatives]): the member's JSON type is picked by the solver"""
+    while node[0] == 'any':
+        sel, alts = node[1], node[2]
+        pick = None
+        for j in range(len(alts) - 1):
+            if m.branch(st, sel == z3.BitVecVal(j, sel.size())): pick = j; break
+        node = alts[len(alts) - 1 if pick is None else pick]
+    return node
+
+
 def value_as(m, st, node, ty):
     """std/serde Deserialize impls for the types RawSourceMap uses -> Result value"""
     ty = ty.strip()
+    node = resolve_any(m, st, node)
     if node[0] == 'opt':
         if bool_val(m, st, node[1]): node = ('null',)
         else: node = node[2]
